@@ -11,7 +11,7 @@
    no subcommand has a section.  `wf p`: option names, subcommand names and dest are pairwise
    different in each parser of the tree and no subcommand is named "".
    Ok excludes OutOfFuel, so the statements hold for every fuel. *)
-From JV Require Import Lib.Base Model.C17Subcmd Spec.C17SubcmdSpec Proofs.C17SubcmdProofs.
+From JV Require Import Lib.Base Model.C17Subcmd Spec.C17SubcmdSpec Proofs.C17SubcmdProofs Proofs.C17SelectProofs.
 
 (* FULL STATEMENT (false of the unchanged code, see C17_falsy_name_refuted):
      forall fuel p x cfg, wf p -> parse orig fuel p x = Ok cfg -> Sel false p cfg.                    *)
@@ -144,6 +144,42 @@ Theorem C17_environment_name_wins :
     parse fx fuel p {| i_env := os; i_entry := EEnv m |} = Ok cfg -> get (p_dest p) cfg = Some (NStr n).
 Proof. exact env_name_wins. Qed.
 Print Assumptions C17_environment_name_wins.
+
+(* THE WHOLE RULE for the config entry points (round 6): for every tree, every variant, every environment (read or not)
+   and every JSON object c whose subcommand key is absent or a string, what a successful parse_object(c) /
+   parse_string(c) stores under the subcommand key is Spec.select evaluated on the INPUTS: the name in c; else the
+   declared name the environment gives; else the first DECLARED subcommand for which c gives settings (a section
+   with at least one value) - whatever other sections there are; else nothing (None).  This adds the clauses
+   "else the one named in the ... environment" (for these entry points) and "else the first one for which settings
+   were given", and the fact that nothing else is ever chosen, to C17_config_name_wins. *)
+Theorem C17_config_entry_selection_rule :
+  forall fx fuel env p c cfg, wf p -> p_has p = true -> json_ok (CObj c) = true -> dest_key_plain p c = true ->
+    (parse fx fuel p {| i_env := env; i_entry := EObject c |} = Ok cfg \/
+     parse fx fuel p {| i_env := env; i_entry := EString c |} = Ok cfg) ->
+    get (p_dest p) cfg = match select p (top_level {| i_env := env; i_entry := EObject c |}) with
+                         | Some n => Some (NStr n)
+                         | None => Some NNone
+                         end.
+Proof. exact config_entry_select. Qed.
+Print Assumptions C17_config_entry_selection_rule.
+
+(* its hypotheses are satisfiable, one example per new clause: (1) settings for a and b, no key: a (declared first)
+   is chosen and b's section is gone; (2) the environment names b while the object gives settings for a: b;
+   (3) nothing given, optional: None *)
+Example C17_selection_rule_satisfiable :
+  (let c := [(s_b, CObj [(s_y, CInt 7)]); (s_a, CObj [(s_x, CInt 5)])] in
+   json_ok (CObj c) = true /\ dest_key_plain p_opt c = true /\
+   select p_opt (top_level {| i_env := None; i_entry := EObject c |}) = Some s_a /\
+   exists cfg, parse orig 10 p_opt {| i_env := None; i_entry := EObject c |} = Ok cfg /\
+               get s_sub cfg = Some (NStr s_a) /\ get s_b cfg = None) /\
+  (let c := [(s_a, CObj [(s_x, CInt 5)])] in
+   let env := Some [(s_sub, CStr s_b)] in
+   select p_opt (top_level {| i_env := env; i_entry := EString c |}) = Some s_b /\
+   exists cfg, parse orig 10 p_opt {| i_env := env; i_entry := EString c |} = Ok cfg /\
+               get s_sub cfg = Some (NStr s_b) /\ get s_a cfg = None) /\
+  (select p_opt (top_level {| i_env := None; i_entry := EObject [] |}) = None /\
+   exists cfg, parse orig 10 p_opt {| i_env := None; i_entry := EObject [] |} = Ok cfg /\ get s_sub cfg = Some NNone).
+Proof. vm_compute. repeat split; eexists; repeat split. Qed.
 
 (* both hypotheses are satisfiable: the command line names a although the --cfg value names b; the
    object names b although settings are given for a (declared first) *)
